@@ -43,7 +43,7 @@ func funcsByAddr(prop string) []int {
 			}
 			continue
 		}
-		if t.Kind == "func" {
+		if t.Kind == "func" && !t.Generic {
 			out = append(out, t.Idx)
 		}
 	}
